@@ -235,6 +235,16 @@ def stream_helpers(ctx, fp):
             continue
         impl = [[list(p) for p in part] for part in ys]
         b.add(case, impl, {'op': 'c18.gen_partitions', 'labels': labs})
+        if n <= 24:
+            for ms in (2, 3, 6):
+                ys, exc = collect(fp._gen_partitions, list(labs), ms)
+                case = {'fn': '_gen_partitions', 'labels': n, 'min_size': ms}
+                s.case(case)
+                s.count('_gen_partitions:min_size')
+                if exc:
+                    s.violate('unexpected exception ' + exc, case, {})
+                    continue
+                b.add(case, [[list(p) for p in part] for part in ys], {'op': 'c18.gen_partitions', 'labels': labs, 'min_size': ms})
     for na in range(2, 8):
         for nb in range(2, 8):
             labs = labels_for(rng, na + nb)
@@ -533,6 +543,11 @@ def rand_qubit_operator(of, rng):
             c = rng.choice([1, -1, 2, 3]) / rng.choice([1, 2, 4, 8])
             if r < 0.3:
                 c = complex(c, rng.choice([1, -1, 2]) / rng.choice([1, 2, 4]))
+            elif r < 0.45 and float(c).is_integer():
+                c = int(c)                      # Python int coefficient
+            elif r < 0.55:
+                import numpy
+                c = numpy.float64(c)            # numpy scalar coefficient
         op.terms[term] = c
     return op
 
